@@ -8,7 +8,8 @@ from ndn.app_support.light_versec import Checker, compile_lvs, SemanticError, Lv
 
 from mc.ref import lvs_ref
 
-FNS = {'$eq': lambda c, args: all(x == c for x in args), '$ne': lambda c, args: all(x != c for x in args)}
+FNS = {'$eq': lambda c, args: all(x == c for x in args), '$ne': lambda c, args: all(x != c for x in args),
+       '$first': lambda c, args: len(args) > 0 and args[0] == c}        # (depends on the order of its arguments)
 
 
 class _LarkCache:
